@@ -376,9 +376,36 @@ def exhaustive_small(res):
                 return n
     return n
 
+def gen_large(op, rng):
+    """the same operations at the sizes configurators produce (a hundred variables, thousands of matrix entries)"""
+    def big_vars(n):
+        return [puan.variable((f"x{i}" if i % 7 else i), rng.choice(BOUNDS)) for i in rng.sample(range(1, 400), n)]
+    if op == "indices":
+        return {"vars": [vjson(v) for v in big_vars(rng.randint(70, 160))]}
+    if op == "construct":
+        vs = big_vars(rng.randint(70, 160))
+        d = gen_dict(rng, [v.id for v in vs], big=2 ** 30, kmax=40)
+        return {"vars": [vjson(v) for v in vs], "dict": [[k, v] for k, v in d.items()], "dfun": None, "raw_default": None, "dtype": "int64"}
+    nr, nc = rng.randint(60, 80), rng.randint(66, 80)
+    m = [[(rng.choice([1, -1, 2, -3]) if rng.random() < 0.05 else 0) for _ in range(nc)] if rng.random() > 0.1 else [0] * nc for _ in range(nr)]
+    return {"nr": nr, "nc": nc, "m": m, "vars": [vjson(v) for v in big_vars(nc)], "index": []}
+
 def run(res, tier, seed):
     rng = random.Random(seed * 1000003 + 20)
     res.rule = RULE
+    for op in ("indices", "construct", "Ab"):
+        if op not in OPS:
+            raise KeyError(op)
+        for _ in range(4 if tier == "quick" else 40):
+            c = gen_large(op, random.Random(rng.getrandbits(64)))
+            res.count("large_" + op)
+            try:
+                bad = OPS[op]["oracle"](c)
+            except Exception as e:
+                bad = f"raised {type(e).__name__}: {e}"
+            res.evaluations += 1
+            if bad:
+                res.violation("oracle", f"{op}: {bad}; input {json.dumps(c, ensure_ascii=False)[:600]}", {"op": op, "case": c, "earlier_cases_in_this_process": []})
     mult = 1 if tier == "quick" else 12
     for op, spec in OPS.items():
         n = QUICK[op] * mult
